@@ -236,6 +236,8 @@ CHECKS["C20"] = {
     "technique": "property-based testing (rapid) with a reference evaluator and a metamorphic re-parenthesisation relation",
     "nontrivial_floor": 500,
     "units": [
+        {"name": "nested-selectors", "run": "^TestC20NestedSelectors$", "kind": "plain"},
+        {"name": "binder-nested", "run": "^TestC20BinderNested$", "kind": "plain"},
         {"name": "by-value", "run": "^TestC20ByValue$", "kind": "plain"},
         {"name": "regress", "run": "^TestC20Regress$", "kind": "plain"},
         {"name": "typed", "run": "^TestC20Typed$", "kind": "rapid", "checks": {"quick": 8000, "thorough": 240000}, "shards": {"quick": 8, "thorough": 16}},
